@@ -9,3 +9,11 @@ import (
 func printerFprint(w io.Writer, fset *token.FileSet, n any) error {
 	return printer.Fprint(w, fset, n)
 }
+
+func sortStrings(xs []string) {
+	for i := 1; i < len(xs); i++ {
+		for j := i; j > 0 && xs[j] < xs[j-1]; j-- {
+			xs[j], xs[j-1] = xs[j-1], xs[j]
+		}
+	}
+}
